@@ -1,6 +1,6 @@
 (* Obs.v — canonical form of observations, projections, and the engine that
    compares an implementation trace with the model's trace of the same ops. *)
-From hagall Require Export Model Codec.
+From hagall Require Export Model Codec Spec.
 
 (* ---------- canonical form of the outputs of one op ---------- *)
 Definition is_leave_delete (c : N) (d : delivery) : option N :=
@@ -79,8 +79,6 @@ Definition find_join_resp (c : N) (outs : list delivery) : option (N * N) :=
   head (omap (λ d, match d with
                    | (c', MJoinResp _ s _ p) => if c' =? c then Some (s, p) else None
                    | _ => None end) outs).
-Definition has_error (c code : N) (outs : list delivery) : bool :=
-  existsb (λ d, match d with (c', MError _ k) => (c' =? c) && (k =? code) | _ => false end) outs.
 
 Definition obs_step (m : members) (e : event) : members :=
   match ev_op e with
